@@ -66,7 +66,7 @@ class ExportConfigFortran(ExportConfig):
             else:
                 if len(shape)>1:
                     dims = ",".join(str(s) for s in shape)
-                    lines.append(f"  {dtype}, dimension ({dims}), parameter :: {name} = reshape([{value}],[{dims}])")
+                    lines.append(f"  {dtype}, dimension ({dims}), parameter :: {name} = reshape([{value}],[{dims}],order=[2,1])")
                 else:
                     shape = ",".join(str(s) for s in shape)
                     lines.append(f"  {dtype}, dimension ({shape}) :: {name} = [{value}];")
